@@ -311,6 +311,12 @@ pub fn utf8_exhaustive(maxlen: usize, shard: u64, nshards: u64) {
     let mut nv = 0u64;
     if shard == 0 {
         check_one(&[], &mut n, &mut nv);
+        // what C and C++ callers send for an empty string: NULL + 0
+        let got = unsafe { diplomat_is_str(std::ptr::null(), 0) };
+        stat("utf8_null_probe", 1);
+        if !got {
+            viol("C16 diplomat_is_str(NULL, 0) = false, the empty string is valid UTF-8".into());
+        }
     }
     for b0 in 0..=255u8 {
         if (b0 as u64) % nshards != shard {
